@@ -126,6 +126,13 @@ def tokens_for(d, rich=False):
     t += ["x", "y", "", "--", "-", "--unknown", "-z", "---x", "-=", "--=x", "-5"]
     if rich:
         t += ["=", "=x", "a=b", "----", "-=-", "--=", "--no-", "--no-zzz", " ", "\n"]
+        # near misses of declared names and letters: other case, proper prefix, extended, non-ASCII neighbour
+        for n, s_, *_ in (d.opts + d.multis + d.toggles)[:4]:
+            t += ["--" + n.upper(), "--" + n + "-", "--" + n + "\xe4"]
+            if len(n) > 1:
+                t += ["--" + n[:-1]]
+            if s_:
+                t += ["-" + s_.upper(), "-" + s_ + "\xe4"]
     seen, out = set(), []
     for x in t:
         if x not in seen:
@@ -257,7 +264,7 @@ def random_decl(rng, small=True):
         n = next(it, None)
         if n is None:
             break
-        toggles.append((n, sh(), ev(), rng.choice([0, 0, 1, 2]), rng.random() < 0.5))
+        toggles.append((n, sh(), ev(), rng.choice([0, 0, 1, 2, -1]), rng.random() < 0.5))
     return Decl(opts, multis, toggles, rng.choice([None, None, 0, 1, 2, 3]), rng.random() < 0.25)
 
 
@@ -296,9 +303,76 @@ def random_env(d, rng):
     return pairs
 
 
+def reuse_stream(tier, rng, n):
+    """one long-lived parser object: several calls, environment changes, further declarations, the object moved
+    (construction and assignment from a differently declared parser of similar size) — each call is compared with a
+    freshly built identical parser inside the C++ process and judged by the spec of the current declaration"""
+    for _ in range(n):
+        d0 = random_decl(rng)
+        steps = []
+        cur = d0
+        old_toks = []
+        for _ in range(rng.randint(2, 6)):
+            k = rng.random()
+            if k < 0.5:
+                toks = tokens_for(cur, rich=False) + old_toks
+                r = rng.random()
+                if r < 0.45:
+                    argv = render_assignment(cur, rng)
+                elif r < 0.9:
+                    argv = [rng.choice(toks) for _ in range(rng.randint(0, 4))]
+                else:
+                    argv = [rng.choice(["p", "q", "x"]) for _ in range(rng.randint(1, 3))]
+                steps.append("a:" + wl(argv))
+            elif k < 0.65:
+                steps.append("e:" + env_wire(random_env(cur, rng)))
+            elif k < 0.78:
+                cur = grow_decl(cur, rng)
+                steps.append("d:" + cur.wire())
+            elif k < 0.86:
+                steps.append("mc")
+            else:
+                # tokens that were meaningful for the parser this object used to be (its letters, names, bundles)
+                old_toks = [t for t in tokens_for(cur, rich=False) if t.startswith("-")][:12]
+                nd = random_decl(rng)
+                tries = 0
+                while tries < 8 and len(nd.opts + nd.multis + nd.toggles) != len(cur.opts + cur.multis + cur.toggles):
+                    nd = random_decl(rng)
+                    tries += 1
+                cur = nd
+                steps.append("M:" + cur.wire())
+        if not any(s.startswith("a:") for s in steps) or not steps[-1].startswith("a:"):
+            toks = tokens_for(cur, rich=False) + old_toks
+            steps.append("a:" + wl([rng.choice(toks) for _ in range(rng.randint(1, 3))]))
+        yield "steps %s %s %s" % (d0.wire(), env_wire(random_env(d0, rng)), " ".join(steps)), "reuse-steps"
+
+
+def moved_bundle_stream(tier, rng, n):
+    """a parser object that parsed, was then move-assigned from (or grown into) a parser of the same size whose toggle letters
+    partly differ, and is given bundles mixing letters of the old and of the new declaration"""
+    letters = list("abcdefgh")
+    for _ in range(n):
+        rng.shuffle(letters)
+        k = rng.randint(2, 3)
+        old = letters[:k]
+        new = [rng.choice(old)] + letters[k:k + k - 1]
+        mk = lambda ls: Decl([("out", "o", None, None, True)], [], [("t" + c, c, None, 0, rng.random() < 0.3) for c in ls],
+                             rng.choice([None, 1]), False)
+        d_old, d_new = mk(old), mk(new)
+        steps = ["a:" + wl(["-" + "".join(rng.sample(old, rng.randint(1, len(old))))])]
+        steps.append(rng.choice(["M:", "M:", "mc M:"]).replace("M:", "M:" + d_new.wire()))
+        pool = old + new + ["z"]
+        for _ in range(rng.randint(1, 3)):
+            b = "".join(rng.choice(pool) for _ in range(rng.randint(1, 3)))
+            steps.append("a:" + wl(["-" + b] + (["p"] if rng.random() < 0.3 else [])))
+        yield "steps %s . %s" % (d_old.wire(), " ".join(steps)), "reuse-moved-bundle"
+
+
 def core_stream(tier, rng, n_random):
     """the stream every parser-cluster check runs: exhaustive short vectors over declaration-relative tokens for
     every shape + random longer vectors + random declarations"""
+    yield from reuse_stream(tier, rng, 1500 if tier == "quick" else 15000)
+    yield from moved_bundle_stream(tier, rng, 400 if tier == "quick" else 4000)
     sh = shapes()
     for name, d in sh:
         toks = tokens_for(d, rich=False)
